@@ -33,3 +33,12 @@ static_assert(std::is_same<ROWOF(S2 == S1 + ev1 / (a1, a2, a3)), fu::vector<mf::
 static_assert(std::is_same<ROWOF(S2 == S1 + ev1), fu::vector<mf::Row<S1t, E1t, S2t, mf::none, mf::none>>>::value, "EUML-007: plain row");
 static_assert(std::is_same<ROWOF(S1 + ev1 == S2), fu::vector<mf::Row<S1t, E1t, S2t, mf::none, mf::none>>>::value, "EUML-008: source + event == target spelling");
 static_assert(std::is_same<ROWOF(S1 + ev1 [g1] / a1 == S2), fu::vector<mf::Row<S1t, E1t, S2t, Seq1<A1t>, G1t>>>::value, "EUML-009: full row in source-first spelling");
+
+// ---- eUML configuration objects: each stands for exactly the option its name says
+namespace eu = boost::msm::front::euml;
+static_assert(std::is_same<decltype(eu::switch_active_before_transition)::active_state_switch_policy, boost::msm::active_state_switch_before_transition>::value, "EUML-010: switch_active_before_transition selects active_state_switch_before_transition");
+static_assert(std::is_same<decltype(eu::switch_active_after_exit)::active_state_switch_policy, boost::msm::active_state_switch_after_exit>::value, "EUML-011: switch_active_after_exit selects active_state_switch_after_exit");
+static_assert(std::is_same<decltype(eu::switch_active_after_action)::active_state_switch_policy, boost::msm::active_state_switch_after_transition_action>::value, "EUML-012: switch_active_after_action selects active_state_switch_after_transition_action");
+static_assert(has_no_exception_thrown<std::remove_const<decltype(eu::no_exception)>::type>::value && !has_no_message_queue<std::remove_const<decltype(eu::no_exception)>::type>::value, "EUML-013: no_exception declares no_exception_thrown only");
+static_assert(has_no_message_queue<std::remove_const<decltype(eu::no_msg_queue)>::type>::value && !has_no_exception_thrown<std::remove_const<decltype(eu::no_msg_queue)>::type>::value, "EUML-014: no_msg_queue declares no_message_queue only");
+static_assert(has_activate_deferred_events<std::remove_const<decltype(eu::deferred_events)>::type>::value, "EUML-015: deferred_events declares activate_deferred_events");
